@@ -229,6 +229,8 @@ class Decoder(Coder):
         # First get all the bit values for the bitmap
         if state.is_compressed:
             bitmap = state.decoded_values_all_subsets[0][-state.n_031031:]
+            if any(values[-state.n_031031:] != bitmap for values in state.decoded_values_all_subsets):
+                raise PyBufrKitError('Bitmaps from all subsets are NOT identical')
         else:
             bitmap = state.decoded_values[-state.n_031031:]
         if reuse:
